@@ -37,7 +37,7 @@ CLAIMED = {
  "C19": dict(
   level="exploration", design="§3 C19", engine="simthreads",
   technique="deterministic simulation of thread schedules: shuttle's seeded random and PCT schedulers run 2-4 threads sharing one compiled filter (and, in the thread-safe value flavour, one value), every stream compared with the stream computed alone in a fresh process; a second stratum runs real threads under Miri's seeded preemptive scheduler; failing schedules / seeds are persisted and replayed exactly; Send + Sync facts asserted at compile time against the tree",
-  text="S0 (static): the simthreads crate asserts Filter<DataKind>, Filter<JustLut<Val>>, Lut and (with jaq-json/sync) Val to be Send + Sync and is compiled against the working tree in both flavours; a build failure naming these bounds is the violation. S1 (schedules): for 64 hand-written terminating programs (regex with differing flags, lazily created nested labels, closures, folds, updates, paths, codecs, formats, dates) plus one or two calls of every filter the tree defines (discovered at run time) x 9 inputs the isolated output stream is computed in a fresh process per pair; shuttle then runs seeded random and PCT schedules in which threads share one Arc<Filter> per program, pull one output per scheduling step, sometimes compile and run another program in between, and (sync flavour) work on one shared value; every stream must equal the isolated one, compilation must succeed iff it does alone, the shared value must be unchanged. S2 (preemption): 3 real threads sharing the compiled filters of 10 core-language programs (lazily created nested labels, folds, closures, recursion, updates) under Miri, whose scheduler preempts at basic-block granularity from a seed (12 seeds quick, 160 thorough; one seed = one exactly repeatable execution) and which also reports data races and undefined behaviour; every stream must equal the sequential one. Seeded search over schedules: evidence, not proof. jaq has no synchronisation of its own, so shuttle interleaves only at the scheduling points the harness inserts (between pulls, around compilation); interleavings inside one interpreter call are covered by the much smaller Miri stratum only.",
+  text="S0 (static): the simthreads crate asserts Filter<DataKind>, Filter<JustLut<Val>>, Lut and (with jaq-json/sync) Val to be Send + Sync and is compiled against the working tree in both flavours; a build failure naming these bounds is the violation. S1 (schedules): for 64 hand-written terminating programs (regex with differing flags, lazily created nested labels, closures, folds, updates, paths, codecs, formats, dates) plus one or two calls of every filter the tree defines (discovered at run time) x 9 inputs the isolated output stream is computed in a fresh process per pair; shuttle then runs seeded random and PCT schedules in which threads share one Arc<Filter> per program, pull one output per scheduling step, sometimes compile and run another program in between, and (sync flavour) work on one shared value; every stream must equal the isolated one, compilation must succeed iff it does alone, the shared value must be unchanged. S2 (preemption): 3 real threads sharing the compiled filters of 10 core-language programs (lazily created nested labels, folds, closures, recursion, updates) under Miri, whose scheduler preempts at basic-block granularity from a seed (12 seeds quick; thorough: 64 seeds and ten more programs that call natives of jaq-std/jaq-json directly; one seed = one exactly repeatable execution) and which also reports data races and undefined behaviour; every stream must equal the sequential one. Seeded search over schedules: evidence, not proof. jaq has no synchronisation of its own, so shuttle interleaves only at the scheduling points the harness inserts (between pulls, around compilation); interleavings inside one interpreter call are covered by the much smaller Miri stratum only.",
   note="Trusted: shuttle's scheduler and replay, Miri's scheduler and race detector, the isolated-process oracle. `now`, `env`, `input(s)` are excluded as the statement allows. Data races inside a single native call are not explorable by shuttle (no shuttle primitives inside jaq)."),
 }
 
